@@ -988,6 +988,13 @@ DJV_CMD(c16_entries, "c16.entries")
     return o;
 }
 
+// c16.list -> recursive listing of the current library directory (directories, files with size and SHA-256)
+DJV_CMD(c16_list, "c16.list")
+{
+    if (S.dir.empty()) throw bad_command{"no directory"};
+    return dir_listing(S.dir);
+}
+
 DJV_CMD(c16_probe, "c16.probe")
 {
     const std::string& shape = a.at(1);
